@@ -145,6 +145,48 @@ Proof.
   - intros Hp. subst s'. rewrite Hp in G4. simpl in G4. apply eqb_prop in G4. exact G4.
 Qed.
 
+(* --- the lagswap = true instance (time-series classes, lagged pair, u later than v) --- *)
+Definition opp (d : dir) : dir := match d with Fw => Bw | Bw => Fw end.
+Definition outcome_eqb (a b : outcome) : bool := pstate_eqb (fst a) (fst b) && Bool.eqb (snd a) (snd b).
+Lemma outcome_eqb_eq a b : outcome_eqb a b = true -> a = b.
+Proof.
+  destruct a as [s1 r1], b as [s2 r2]. unfold outcome_eqb. simpl. intros H. apply andb_true_iff in H as [H1 H2].
+  apply pstate_eqb_eq in H1. apply eqb_prop in H2. congruence.
+Qed.
+(* where the arrowhead of a lagged orientation goes: StationaryTimeSeriesCPDAG orients an undirected edge of a lagged
+   pair FORWARD IN TIME whatever the argument order, i.e. orient(u, v) with u later than v acts as orient(v, u) *)
+Definition lag_dir (c : cls) (d : dir) : dir := match c with CTsCpdag => opp d | _ => d end.
+Lemma orient_lag_reversed : forall c s d, conforming c = true -> orient_lag_of c s d = orient_of c s (lag_dir c d).
+Proof.
+  assert (H : chk3 (fun c s d => implb (conforming c) (outcome_eqb (orient_lag_of c s d) (orient_of c s (lag_dir c d)))) = true)
+    by (vm_compute; reflexivity).
+  intros c s d H1. apply outcome_eqb_eq. exact (implb_elim _ _ (chk3_spec _ H c s d) H1).
+Qed.
+(* StationaryTimeSeriesPAG (as it is): with u later than v the call needs a circle mark from the later to the earlier node;
+   without one it raises and changes nothing *)
+Lemma tspag_lag_raises : forall s d, cir_uv (view s d) = false -> orient_lag_of CTsPag s d = (s, true).
+Proof.
+  assert (H : forallb (fun s => forallb (fun d => implb (negb (cir_uv (view s d)))
+     (outcome_eqb (orient_lag_of CTsPag s d) (s, true))) all_dirs) all_pstates = true) by (vm_compute; reflexivity).
+  intros s d H1. apply outcome_eqb_eq. apply (implb_elim _ _ (forall_dir _ (forall_pstate _ H s) d)). rewrite H1. reflexivity.
+Qed.
+
+(* --- the known finding StationaryTimeSeriesPAG, pinned: the class the harness suppresses is exactly "no insertion guard,
+       and orient_uncertain_edge = remove the circle mark (u, v), add the directed edge (u, v), unguarded".  Any other
+       change of that class's wrappers or orient (also a repair) makes this lemma fail, so it cannot hide behind the
+       known-finding key; update the record and this lemma together. --- *)
+Definition orient_tspag_asis (s : pstate) (d : dir) : outcome :=
+  if cir_uv (view s d) then (view (put (put (view s d) false LCir false) false LDir true) d, false) else (s, true).
+Lemma tspag_asis_pinned :
+  wrap_tspag = {| w_guard := GNone; w_bulk := BulkUnguarded |} /\
+  forall s d, orient_tspag false s d = orient_tspag_asis s d.
+Proof.
+  split; [reflexivity|].
+  assert (H : forallb (fun s => forallb (fun d => outcome_eqb (orient_tspag false s d) (orient_tspag_asis s d)) all_dirs)
+                all_pstates = true) by (vm_compute; reflexivity).
+  intros s d. apply outcome_eqb_eq. exact (forall_dir _ (forall_pstate _ H s) d).
+Qed.
+
 (* --- is_valid_mec_graph on a pair accepts exactly the valid states (all five classes) --- *)
 Lemma mec_accepts_valid : forall c s, valid_of c s = true -> mec_pair c s = true.
 Proof.
@@ -261,7 +303,7 @@ Proof. destruct et; simpl; congruence. Qed.
 
 Lemma step_inv c st o : conforming c = true -> no_all_op o = true -> Inv c st -> Inv c (fst (step c st o)).
 Proof.
-  intros Hc Hn Hi. destruct o as [u v et|es et|u v et|es et|u v|dl ul bl cl]; simpl in Hn; unfold step.
+  intros Hc Hn Hi. destruct o as [u v et|es et|u v et|es et|u v|dl ul bl cl|u v]; simpl in Hn; unfold step.
   - apply negb_true_iff, et_all_dec in Hn.
     destruct (add1 c et st (u, v)) as [st'|] eqn:A; simpl; [eapply add1_inv; eauto | exact Hi].
   - apply negb_true_iff, et_all_dec in Hn.
@@ -272,6 +314,9 @@ Proof.
   - destruct (Nat.eqb u v); simpl; [exact Hi|].
     destruct (canon u v) as [k d]. simpl. apply Inv_set; [exact Hi | apply orient_valid; auto].
   - destruct (mec_ok c (build c dl ul bl cl)) eqn:M; simpl; [apply mec_ok_inv, M | exact Hi].
+  - destruct (Nat.eqb u v); simpl; [exact Hi|].
+    destruct (canon u v) as [k d]. simpl. apply Inv_set; [exact Hi|].
+    rewrite orient_lag_reversed by exact Hc. apply orient_valid; auto.
 Qed.
 
 Lemma run_inv c ops : conforming c = true -> no_all ops = true -> forall st, Inv c st -> Inv c (run c ops st).
@@ -292,7 +337,7 @@ Qed.
 Lemma step_raise_same c st o st' : conforming c = true -> Inv c st ->
   step c st o = (st', true) -> same_graph st st'.
 Proof.
-  intros Hc Hi. destruct o as [u v et|es et|u v et|es et|u v|dl ul bl cl]; unfold step.
+  intros Hc Hi. destruct o as [u v et|es et|u v et|es et|u v|dl ul bl cl|u v]; unfold step.
   - destruct (add1 c et st (u, v)); intros [= <-]; intros k; reflexivity.
   - destruct (scratch_copy_fails c st); [intros [= <-]; intros k; reflexivity|].
     destruct (add_all c et st es); intros [= <-]; intros k; reflexivity.
@@ -302,6 +347,9 @@ Proof.
     destruct (canon u v) as [k d]. intros [= <- Hr]. intros k'.
     rewrite (orient_atomic c (get st k) d Hc (Hi k) Hr). apply same_set_get.
   - destruct (mec_ok c (build c dl ul bl cl)); intros [= <-]; intros k; reflexivity.
+  - destruct (Nat.eqb u v); [intros [= <-]; intros k; reflexivity|].
+    destruct (canon u v) as [k d]. rewrite orient_lag_reversed by exact Hc. intros [= <- Hr]. intros k'.
+    rewrite (orient_atomic c (get st k) (lag_dir c d) Hc (Hi k) Hr). apply same_set_get.
 Qed.
 
 Theorem c03_raise_atomic : raise_atomic_stmt.
